@@ -444,9 +444,16 @@ class ConfigLoader(BaseLoader):
         url = self._loader.schemaComponentSource(pkgname, '')
         if schema.hasComponent(url):
             return
+        # a component that fails to load must leave nothing behind in a
+        # loader that is used again
+        saved = ZConfig.info.createDerivedSchema(schema)
         schema.addComponent(url)
-        with self.openResource(url) as resource:
-            ZConfig.schema.parseComponent(resource, self._loader, schema)
+        try:
+            with self.openResource(url) as resource:
+                ZConfig.schema.parseComponent(resource, self._loader, schema)
+        except BaseException:
+            self.schema = saved
+            raise
 
     def includeConfiguration(self, section, url, defines):
         try:
